@@ -300,9 +300,14 @@ static QByteArray key1(unsigned c) { QByteArray s; vp_c18_key_str(&s, c); return
 
 // symbolic pre-state: any level per pair; NPRE postponed decisions in slots 0..NPRE-1, each used or not, from any sender key
 // (A..D or X) about any pair.  Representation invariant of the storage: at most one entry per (sender key, pair).
-static void symState(TrustState &st, int npre)
+// fixedContact (1..6): both keys of the contact have the CONCRETE level 1 << (fixedContact - 1) (case split per instance; keeps
+// the key lists built from the storage concrete where the code under check iterates over them).
+static void symState(TrustState &st, int npre, unsigned fixedContact = 0)
 {
-    for (int q = 0; q < NQ; q++) { unsigned x = vp_u8(); vp_assume(x < 6); st.L[q] = (unsigned char)(1u << x); }
+    for (int q = 0; q < NQ; q++) {
+        if (fixedContact && q >= 2) { st.L[q] = (unsigned char)(1u << (fixedContact - 1)); continue; }
+        unsigned x = vp_u8(); vp_assume(x < 6); st.L[q] = (unsigned char)(1u << x);
+    }
     for (int i = 0; i < PCAP; i++) { st.P[i].used = false; st.P[i].s = 'A'; st.P[i].q = 0; st.P[i].t = false; }
     for (int i = 0; i < 2; i++) {
         if (i >= npre) continue;
@@ -310,7 +315,12 @@ static void symState(TrustState &st, int npre)
         unsigned q = vp_u8(); vp_assume(q < NQ);
         st.P[i].used = vp_bool(); st.P[i].s = (unsigned char)(s == 4 ? KEY_X : 'A' + s); st.P[i].q = (unsigned char)q; st.P[i].t = vp_bool();
     }
-    if (npre > 1) vp_assume(!(st.P[0].used && st.P[1].used && st.P[0].s == st.P[1].s && st.P[0].q == st.P[1].q));
+    // representation invariants: (1) storage contract: at most one entry per (sender key, pair); (2) a decision is only ever
+    // held back for a sender that was in scope when it arrived: entries sent with a key of the contact concern the contact's keys
+    // (entries of the unknown sender key X and of own keys may concern any pair); (3) bound of this harness: no two senders have
+    // postponed the SAME decision (same pair, same direction) - see SPEC['outside'].
+    for (int i = 0; i < 2; i++) { if (i < npre) vp_assume(!(st.P[i].used && (st.P[i].s == 'C' || st.P[i].s == 'D') && st.P[i].q < 2)); }
+    if (npre > 1) vp_assume(!(st.P[0].used && st.P[1].used && st.P[0].q == st.P[1].q && (st.P[0].s == st.P[1].s || st.P[0].t == st.P[1].t)));
 }
 
 // ------------------------------------------------------------------------------------------------ reference model of XEP-0450
@@ -341,7 +351,7 @@ template<int DEPTH> static void refAuthenticate(TrustState &r, unsigned policy, 
         if (r.P[i].used && r.P[i].s != KEY_X && (A & (1u << (r.P[i].s - 'A')))) { if (r.P[i].t) A2 |= 1u << r.P[i].q; else D2 |= 1u << r.P[i].q; }
     }
     for (int i = 0; i < PCAP; i++) {
-        if (r.P[i].used && ((r.P[i].t && (A2 & (1u << r.P[i].q))) || (!r.P[i].t && (D2 & (1u << r.P[i].q))))) r.P[i].used = false;
+        if (r.P[i].used && r.P[i].s != KEY_X && (A & (1u << (r.P[i].s - 'A')))) r.P[i].used = false;   // applied once
     }
     refApply<DEPTH - 1>(r, policy, A2, D2);
 }
@@ -382,6 +392,7 @@ extern "C" void h_msg()
     int nOwners = 1 + (cfg & 1);
     symState(g_st, (cfg >> 8) & 3);
     TrustState ref = g_st;
+    const TrustState pre = g_st;
 
     bool sOwn = vp_bool();
     bool res1 = vp_bool();
@@ -433,7 +444,11 @@ extern "C" void h_msg()
         }
         refApply<3>(ref, g_policy, A, D);
     }
+    bool senderAuth = senderKey != KEY_X && pre.L[senderKey - 'A'] == LvAuthenticated;
     vp_assert(task.isFinished(), "C18 handleMessage completes (storage answers synchronously)");
+    vp_assert(!(echo || !senderAuth) || sameLevels(g_st, pre), "C18 no trust level changes unless the sender's own key is authenticated and the message is not an echo of this device");
+    vp_assert(sOwn || (g_st.L[0] == pre.L[0] && g_st.L[1] == pre.L[1]), "C18 a contact's trust message changes no key of another account");
+    vp_assert(!echo || (subsetPostponed(g_st, pre) && subsetPostponed(pre, g_st)), "C18 an echo of this device's own trust message is ignored (nothing held back either)");
     vp_assert(sameLevels(g_st, ref), "C18 trust levels after a trust message equal the XEP-0450 reference (authenticated sender, scope, echo, cascade)");
     vp_assert(subsetPostponed(g_st, ref), "C18 every postponed decision kept by the storage is one the reference keeps");
     vp_assert(subsetPostponed(ref, g_st), "C18 every postponed decision of the reference is still held back");
@@ -441,14 +456,15 @@ extern "C" void h_msg()
 
 // ------------------------------------------------------------------------------------------------ manual decision event
 // QXmppAtmManager::makeTrustDecisions(encryption, owner, keysForAuthentication, keysForDistrusting) (public API: QR code scan,
-// manual entry).  shape (C18_CFG): bit 0 one key to authenticate, bit 1 one key to distrust, bit 2 the owner is the own account;
+// manual entry).  shape (C18_CFG): bit 0 one key to authenticate, bit 1 one key to distrust, bit 2 the owner is the own account,
+// bits 4-6: 0 = contact's levels symbolic, k = both keys of the contact have level 1 << (k-1);
 // bits 8-9 postponed-decision slots of the pre-state.  Symbolic: which keys of the owner, pre-state.
 extern "C" void h_manual()
 {
     World w;
     unsigned cfg = vp_c18_cfg();
     bool hasA = cfg & 1, hasD = cfg & 2, own = cfg & 4;
-    symState(g_st, (cfg >> 8) & 3);
+    symState(g_st, (cfg >> 8) & 3, (cfg >> 4) & 7);
     TrustState ref = g_st;
     unsigned base = own ? 0 : 2;
     unsigned aq = base + (vp_bool() ? 1 : 0), dq = base + (vp_bool() ? 1 : 0);
